@@ -120,7 +120,31 @@ pub fn call_with(ev: Ev, expr: &str, ph: &Val, budget: u64, yield_every: u64) ->
 /// Standard call: armed with the C02 budget, so ordinary monitors are cut loose from runaway loops (a trip is C02's to report).
 pub fn call(ev: Ev, expr: &str, ph: &Val) -> Outcome {
     let len = expr.chars().count();
+    // One call in four is preceded by the same expression with a "twin" placeholder (equal under ==
+    // or numerically, yet a different value - or simply another value): a result that leaks from one
+    // call into the next (memo keyed on the text, on ==, on a hash) then shows up as a wrong value in
+    // whichever monitor is running, not only in C16's histories.
+    if expr.contains('@') && crate::prng::fnv(expr.as_bytes()) % 4 == 0 {
+        let _ = call_with(ev, expr, &twin(ph), c02_budget(len), 0);
+    }
     call_with(ev, expr, ph, c02_budget(len), 0).outcome
+}
+
+/// a placeholder easily confused with `p`
+pub fn twin(p: &Val) -> Val {
+    match p {
+        Val::F(x) if *x == 0.0 || x.is_nan() => Val::F(if x.is_nan() { f64::from_bits(x.to_bits() ^ 1) } else { -*x }),
+        Val::F(x) => Val::F(-*x),
+        Val::I(x) => Val::I(x.wrapping_add(4294967296)),
+        Val::D(d) if d.mant == 0 => Val::D(DecV { neg: !d.neg, mant: 0, scale: d.scale }),
+        Val::D(d) if d.scale < 28 && d.mant < (1u128 << 92) => Val::D(DecV { neg: d.neg, mant: d.mant * 10, scale: d.scale + 1 }),
+        Val::D(d) => Val::D(DecV { neg: !d.neg, mant: d.mant, scale: d.scale }),
+        Val::C(a, b) if *b == 0.0 => Val::C(*a, -*b),
+        Val::C(a, b) => Val::C(*a, -*b),
+        Val::NI(i) => Val::NF(*i as f64),
+        Val::NF(f) if *f == f.trunc() && f.abs() < 9e18 => Val::NI(*f as i64),
+        Val::NF(f) => Val::NF(-*f),
+    }
 }
 
 pub fn number_from_f64(v: f64) -> Val {
